@@ -52,7 +52,11 @@ def observe(ctx, rs, model, X, user_groups, inp, where):
         for g in user_groups:
             ins = [i for i in g if i in sel]
             if ins and len(ins) != len(g):
-                bad(f"group {g} is split: selected members {ins}", "groups:split", "all or none", ins)
+                out = [i for i in g if i not in sel]
+                zc = all(not X[:, i].any() for i in out)
+                bad(f"group {g} is split: selected members {ins}, discarded members {out}"
+                    + (" (their columns of X are constant zero: no gradient ever reaches them)" if zc else ""),
+                    "groups:split" if zc else "groups:split:nonzero-column", "all or none", ins)
         ctx.count("group states checked")
     return nv
 
@@ -209,9 +213,10 @@ def run_case(ctx, rs, cfg, mode, pa, lines, pending, heavy_budget, sample=False)
                 if nz and len(nz) != len(g):
                     nviol[0] += 1
                     split_reported = True
+                    zc = all(not X[:, i].any() for i in g if i not in nz)
                     ctx.violation(f"[update #{u['index']}] group {g} is split after the update: non-zero members {nz} "
                                   f"(zero columns of X: {[j for j in range(d) if not X[:, j].any()]})", "update", inp,
-                                  key="groups:split", how=HOW)
+                                  key="groups:split" if zc else "groups:split:nonzero-column", how=HOW)
         if k in heavy_idx and u["post_opt"] is not None and np.all(np.isfinite(np.concatenate([a.ravel() for a in u["post_opt"]]))):
             lines.append(update_line(name, mg, M, u))
             pending.append(("update", name, u, inp))
@@ -387,11 +392,11 @@ def run(ctx):
     # ---- check_groups
     glines, gcases = groups_cases(ctx, rs, 150 if quick else 3000)
     # ---- real runs
-    nruns = 60 if quick else 700
+    nruns = 60 if quick else 1200
     t0 = time.time()
     for it in range(nruns):
         mode = ["fit", "path", "fit-identity", "path"][it % 4]
-        fam = sl.SPARSE[(it // 4 + it) % len(sl.SPARSE)]
+        fam = sl.SPARSE[(it // 4) % len(sl.SPARSE)]
         cfg = sl.gen_config(rs, mode == "path", quick, family=fam)
         pa = sl.gen_path_args(rs, cfg["X"].shape[1]) if mode == "path" else {}
         if mode == "path":
